@@ -4,9 +4,17 @@ FUNCTIONS = [
     'circus.watcher:Watcher.send_signal_process',
     'circus.watcher:Watcher.send_signal',
     'circus.watcher:Watcher.call_hook',
+    # the Process wrappers the escalation relies on (is the worker still alive? deliver this signal to it)
+    'circus.process:Process.poll',
+    'circus.process:Process.is_alive',
+    'circus.process:Process.send_signal',
 ]
 LEMMAS = []
 FRAMES = [
+    {'name': 'pid-property-definition', 'kind': 'body_is', 'function': 'circus.process:Process.pid',
+     'body': 'return self._worker.pid', 'decorators': ['property'],
+     'what': 'Process.pid (a model field in the contracts) is the property `return self._worker.pid`: justifies the entry '
+             'assumption A-WORKERPID of the Process wrappers'},
     {'name': 'stopping-writers', 'kind': 'attr_store', 'attr': 'stopping',
      'what': 'Process.stopping is written only by Process.__init__ and Watcher.kill_process (ownership of a '
              'termination in flight: rely relation "kill")',
